@@ -2154,3 +2154,26 @@ fn k_transformed_nearest_shader() {
     }
     kani::cover!(count == 3);
 }
+
+// ---------------------------------------------------------------- Kani function contracts on the real fns (attrs.toml) and their modular use
+// @ob id=K.contract_saturated_add props=C01,C07 kind=complete tier=quick timeout=300 fns=saturated_add
+// @+ desc="Kani function contract attached to the real saturated_add (requires a+b <= 256, ensures result == min(a+b,255)), proved by proof_for_contract for all a,b"
+#[kani::proof_for_contract(saturated_add)]
+fn k_contract_saturated_add() {
+    saturated_add(kani::any(), kani::any());
+    kani::cover!(true);
+}
+// @ob id=K.contract_partial_alpha props=C01,C07 kind=complete tier=quick timeout=300 fns=coverage_to_partial_alpha
+// @+ desc="Kani function contract attached to the real coverage_to_partial_alpha (requires 0 <= cells <= 15, ensures result == 16*cells), proved by proof_for_contract"
+#[kani::proof_for_contract(coverage_to_partial_alpha)]
+fn k_contract_partial_alpha() {
+    coverage_to_partial_alpha(kani::any());
+    kani::cover!(true);
+}
+// @ob id=K.mask_super_blit_span_modular props=C01,C02,C07 kind=bounded:width<=4,rows=2 tier=quick timeout=900 fns=MaskSuperBlitter::blit_span
+// @+ desc="the same contract as K.mask_super_blit_span with saturated_add and coverage_to_partial_alpha replaced by their verified Kani contracts (stub_verified): blit_span is checked against its callees' contracts, not their bodies, and must establish their preconditions (cells <= 15, accumulated value <= 256) at every call site"
+#[kani::proof]
+#[kani::unwind(11)]
+#[kani::stub_verified(saturated_add)]
+#[kani::stub_verified(coverage_to_partial_alpha)]
+fn k_mask_super_blit_span_modular() { k_mask_super_blit_span(); }
